@@ -41,10 +41,17 @@ def fmtKey : Option (Bool × Bytes) → String
 def fmtAns (a : Ans) : String :=
   s!"{a.code} {a.result} s{a.sender} s{a.receiver} {a.txid} {a.msgType} {hx a.phy} {fmtKey a.sNwkSIntKey} {fmtKey a.fNwkSIntKey} {fmtKey a.nwkSEncKey} {fmtKey a.nwkSKey} {fmtKey a.appSKey}"
 
-def isJSOp (op : String) : Bool := op == "jsreq" || op == "jsconc"
+def isJSOp (op : String) : Bool := op == "jsreq" || op == "jsconc" || op == "jshome" || op == "jsraw"
 
 def jsQuery (E : BlockCipher) (op : String) (args : List String) : String :=
   if op == "jsconc" then "ok same"
+  else if op == "jshome" then
+    match (do let k ← boolean; let _e ← hex; let n ← hex; let s ← strTok; let r ← strTok; let t ← nat; pure (k, n, s, r, t) : P _) args with
+    | some ((k, n, s, r, t), _) =>
+      let (code, res, snd, rcv, tx, mt, nid) := serveHomeNS (if k then some n else none) s r t
+      s!"ok {code} {res} s{snd} s{rcv} {tx} {mt} {hx nid}"
+    | none => "BADOP parse"
+  else if op == "jsraw" then "ok 400 Other"   -- a body that is not a JoinReq / RejoinReq / HomeNSReq object: bare Result, code 400
   else match request args with
     | some ((q, c), _) => "ok " ++ fmtAns (serve E q c)
     | none => "BADOP parse"
